@@ -94,39 +94,133 @@ def concrete_case(cases):
 
 
 # --------------------------------------------------------------------------- iterators
+# An iterator is an IterV: a source (list / chars / range) or an adaptor over a base iterator.  `elems` materialises
+# the remaining items of a FINITE iterator, running adaptor closures from their MIR in order (forking where needed).
+SOURCE_KINDS = ('list', 'chars', 'range', 'matches')
+
+
+def call_seq(ex, st, clos, items, depth, by_ref=False, merged=True):
+    """apply closure to each item in order -> [(state, [results])]"""
+    cur = [(st, [])]
+    for x in items:
+        nxt = []
+        for s1, acc in cur:
+            arg = s1.ref(x) if by_ref else x
+            outs = ex.call_merged(s1, clos, [arg], depth) if merged else ex.call_value(s1, clos, [arg], depth)
+            for o in outs:
+                if o.panic:
+                    raise Inconclusive('panic inside an iterator closure')
+                nxt.append((o.st, acc + [o.val]))
+        cur = nxt
+    return cur
+
+
+def truth_forks(ex, st, v):
+    if not is_z3(v):
+        raise Inconclusive('expected a Boolean, got %r' % (v,))
+    return ex.branch(st, v)
+
+
+def iterable(st, v):
+    """value usable as an iterator source -> IterV or None"""
+    if isinstance(v, IterV):
+        return v
+    if isinstance(v, TupV) and v.names == ('start', 'end'):
+        if v.tag == 'RangeInclusive':
+            hi = concrete(v.get('end'))
+            if hi is None:
+                raise Inconclusive('inclusive range with a symbolic end')
+            return IterV('range', items=(v.get('start'), BV(hi + 1, v.get('end').size())))
+        return IterV('range', items=(v.get('start'), v.get('end')))
+    if isinstance(v, ListV):
+        return IterV('list', items=v.items)
+    if isinstance(v, RefV):
+        t = st.load(v)
+        if isinstance(t, ListV):
+            return IterV('list', by_ref=v)
+        if isinstance(t, RefV):
+            return iterable(st, t)
+        if isinstance(t, (IterV, TupV)):
+            return iterable(st, t)
+    if isinstance(v, EnumV) and v.enum == 'Option':
+        return IterV('list', items=tuple(v.fields))
+    return None
+
+
 def elems(ex, st, it, depth):
     """consume iterator value -> [(state, [items])]"""
-    it = deref(st, it)
-    if isinstance(it, IterV):
-        if it.kind == 'chars':
-            return [(st, list(it.items[it.pos:]))]
-        if it.kind == 'list':
-            if it.by_ref is not None:
-                n = len(deref(st, it.by_ref).items)
-                return [(st, [RefV(it.by_ref.addr, it.by_ref.path + (i,)) for i in range(it.pos, n)])]
-            return [(st, list(it.items[it.pos:]))]
-        if it.kind == 'map':
-            outs = []
-            for st1, xs in elems(ex, st, it.base, depth):
-                cur = [(st1, [])]
-                for x in xs:
+    it0 = it
+    it = iterable(st, deref_iter(st, it))
+    if it is None:
+        raise Inconclusive('iterate %r' % (it0,))
+    k = it.kind
+    if k == 'chars' or k == 'matches':
+        return [(st, list(it.items[it.pos:]))]
+    if k == 'list':
+        if it.by_ref is not None:
+            n = len(deref(st, it.by_ref).items)
+            return [(st, [RefV(it.by_ref.addr, it.by_ref.path + (i,)) for i in range(it.pos, n)])]
+        return [(st, list(it.items[it.pos:]))]
+    if k == 'range':
+        lo, hi = concrete(it.items[0]), concrete(it.items[1])
+        if lo is None or hi is None:
+            raise Inconclusive('range with symbolic bounds')
+        return [(st, [BV(i, it.items[0].size()) for i in range(lo, hi)])]
+    outs = []
+    for st1, xs in elems(ex, st, it.base, depth):
+        if k == 'map':
+            outs += call_seq(ex, st1, it.clos, xs, depth)
+        elif k == 'filter':
+            for st2, keeps in call_seq(ex, st1, it.clos, xs, depth, by_ref=True):
+                cur = [(st2, [])]
+                for x, kp in zip(xs, keeps):
                     nxt = []
-                    for st2, acc in cur:
-                        for o in ex.call_merged(st2, it.clos, [x], depth):
-                            if o.panic:
-                                raise Inconclusive('panic inside iterator closure')
-                            nxt.append((o.st, acc + [o.val]))
+                    for s3, acc in cur:
+                        for s4, t in truth_forks(ex, s3, kp):
+                            nxt.append((s4, acc + [x] if t else acc))
                     cur = nxt
                 outs += cur
-            return outs
-        if it.kind == 'range':
-            lo, hi = concrete(it.items[0]), concrete(it.items[1])
-            if lo is None or hi is None:
-                raise Inconclusive('range with symbolic bounds')
-            return [(st, [BV(i, 64) for i in range(lo, hi)])]
-    if isinstance(it, ListV):
-        return [(st, list(it.items))]
-    raise Inconclusive('iterate %r' % (it,))
+        elif k == 'filter_map':
+            for st2, rs in call_seq(ex, st1, it.clos, xs, depth, merged=False):
+                outs.append((st2, [r.fields[0] for r in rs if r.variant == 'Some']))
+        elif k == 'enumerate':
+            outs.append((st1, [TupV((BV(i, 64), x)) for i, x in enumerate(xs)]))
+        elif k == 'rev':
+            outs.append((st1, xs[::-1]))
+        elif k in ('cloned', 'copied'):
+            outs.append((st1, [deref(st1, x) if isinstance(x, RefV) and not isinstance(st1.load(x), RefV) else st1.load(x) for x in xs]))
+        elif k == 'flat_map':
+            for st2, rs in call_seq(ex, st1, it.clos, xs, depth, merged=False):
+                cur = [(st2, [])]
+                for r in rs:
+                    nxt = []
+                    for s3, acc in cur:
+                        for s4, ys in elems(ex, s3, r, depth):
+                            nxt.append((s4, acc + ys))
+                    cur = nxt
+                outs += cur
+        elif k == 'zip':
+            for st2, ys in elems(ex, st1, it.clos, depth):
+                outs.append((st2, [TupV((x, y)) for x, y in zip(xs, ys)]))
+        elif k == 'take':
+            outs.append((st1, xs[:it.pos]))
+        elif k == 'skip':
+            outs.append((st1, xs[it.pos:]))
+        elif k == 'chain':
+            for st2, ys in elems(ex, st1, it.clos, depth):
+                outs.append((st2, xs + ys))
+        else:
+            raise Inconclusive('iterator adaptor ' + k)
+    return outs
+
+
+def deref_iter(st, v):
+    while isinstance(v, RefV):
+        t = st.load(v)
+        if isinstance(t, ListV):
+            return v
+        v = t
+    return v
 
 
 def m_slice_iter(ex, st, fr, callee, a, depth):
@@ -140,32 +234,25 @@ def m_slice_iter(ex, st, fr, callee, a, depth):
 
 
 def m_into_iter(ex, st, fr, callee, a, depth):
-    v = a[0]
-    if isinstance(v, TupV) and v.names == ('start', 'end'):
-        return IterV('range', items=(v.get('start'), v.get('end')))
-    if isinstance(v, RefV):
-        t = st.load(v)
-        if isinstance(t, ListV):
-            return IterV('list', by_ref=v)
-    if isinstance(v, ListV):
-        return IterV('list', items=v.items)
-    return v
+    it = iterable(st, a[0])
+    return it if it is not None else a[0]
 
 
 def m_iter_next(ex, st, fr, callee, a, depth):
     r = a[0]
-    it = st.load(r)
-    if isinstance(it, TupV) and it.names == ('start', 'end'):
-        it = IterV('range', items=(it.get('start'), it.get('end')))
-    if not isinstance(it, IterV):
-        raise Inconclusive('next on %r' % (it,))
+    while isinstance(st.load(r), RefV) and not isinstance(st.load(st.load(r)), ListV):
+        r = st.load(r)
+    it = iterable(st, st.load(r))
+    if it is None:
+        return NotImplemented
     if it.kind == 'range':
         lo, hi = concrete(it.items[0]), concrete(it.items[1])
         if lo is None or hi is None:
             raise Inconclusive('Range::next with symbolic bounds')
+        w = it.items[0].size()
         if lo < hi:
-            st.store(r, IterV('range', items=(BV(lo + 1, 64), it.items[1])))
-            return some(BV(lo, 64))
+            st.store(r, IterV('range', items=(BV(lo + 1, w), it.items[1])))
+            return some(BV(lo, w))
         return NONE
     if it.kind == 'list':
         if it.by_ref is not None:
@@ -178,20 +265,109 @@ def m_iter_next(ex, st, fr, callee, a, depth):
             st.store(r, IterV('list', items=it.items, pos=it.pos + 1))
             return some(it.items[it.pos])
         return NONE
-    if it.kind == 'chars':
+    if it.kind in ('chars', 'matches'):
         if it.pos < len(it.items):
-            st.store(r, IterV('chars', items=it.items, pos=it.pos + 1))
+            st.store(r, IterV(it.kind, items=it.items, pos=it.pos + 1))
             return some(it.items[it.pos])
         return NONE
-    raise Inconclusive('next on iterator kind ' + it.kind)
+    # adaptor: materialise once, then behave like a list
+    outs = []
+    for s1, xs in elems(ex, st, it, depth):
+        if xs:
+            s1.store(r, IterV('list', items=tuple(xs), pos=1))
+            outs.append((s1, some(xs[0])))
+        else:
+            s1.store(r, IterV('list', items=(), pos=0))
+            outs.append((s1, NONE))
+    return outs
 
 
-def m_map(ex, st, fr, callee, a, depth):
-    return IterV('map', base=a[0], clos=a[1])
+def adaptor(kind, with_clos=True, by_count=False):
+    def m(ex, st, fr, callee, a, depth):
+        base = a[0]
+        if iterable(st, deref_iter(st, base)) is None:
+            return NotImplemented
+        if by_count:
+            n = concrete(a[1])
+            if n is None:
+                raise Inconclusive('%s with a symbolic count' % kind)
+            return IterV(kind, base=base, pos=n)
+        return IterV(kind, base=base, clos=a[1] if with_clos and len(a) > 1 else None)
+    m.__name__ = 'm_iter_' + kind
+    return m
+
+
+def _value_eq(st, p, q):
+    p, q = deref(st, p), deref(st, q)
+    if isinstance(p, SymStr) and isinstance(q, SymStr):
+        if len(p.items) != len(q.items):
+            return z3.BoolVal(False)
+        return z3.And(*[u == v for u, v in zip(p.items, q.items)]) if p.items else z3.BoolVal(True)
+    if is_z3(p) and is_z3(q):
+        return p == q
+    raise Inconclusive('equality of %r and %r' % (p, q))
+
+
+def m_unique_by(ex, st, fr, callee, a, depth):
+    """Itertools::unique_by / unique: keeps the first element of every key class (forks on key equality)"""
+    by_key = '::unique_by::<' in callee
+    outs = []
+    for s, xs in elems(ex, st, a[0], depth):
+        keyed = call_seq(ex, s, a[1], xs, depth, by_ref=True, merged=False) if by_key else [(s, list(xs))]
+        for s1, keys in keyed:
+            cur = [(s1, [], [])]      # state, kept items, kept keys
+            for x, k in zip(xs, keys):
+                nxt = []
+                for s2, kept, kk in cur:
+                    work = [(s2, 0)]
+                    while work:
+                        s3, j = work.pop()
+                        if j == len(kk):
+                            nxt.append((s3, kept + [x], kk + [k]))
+                            continue
+                        for s4, same in ex.branch(s3, _value_eq(s3, kk[j], k)):
+                            if same:
+                                nxt.append((s4, kept, kk))
+                            else:
+                                work.append((s4, j + 1))
+                cur = nxt
+            for s2, kept, _kk in cur:
+                outs.append((s2, IterV('list', items=tuple(kept))))
+    return outs
+
+
+def m_mem_take(ex, st, fr, callee, a, depth):
+    r = a[0]
+    v = st.load(r)
+    if isinstance(v, ListV):
+        st.store(r, ListV(()))
+    elif isinstance(v, SymStr):
+        st.store(r, SymStr(()))
+    else:
+        raise Inconclusive('mem::take of %r' % (v,))
+    return v
 
 
 def m_collect_vec(ex, st, fr, callee, a, depth):
     return [(s, ListV(xs)) for s, xs in elems(ex, st, a[0], depth)]
+
+
+def m_collect(ex, st, fr, callee, a, depth):
+    m = re.search(r'::collect::<(.*)>$', callee, re.S)
+    target = strip_generics(m.group(1)).strip() if m else ''
+    outs = []
+    for s, xs in elems(ex, st, a[0], depth):
+        if target.split('::')[-1] == 'String':
+            items = []
+            for x in xs:
+                x = deref(s, x)
+                items += list(x.items) if isinstance(x, SymStr) else [x]
+            outs.append((s, SymStr(items)))
+        elif target.split('::')[-1] == 'Vec':
+            outs.append((s, ListV(xs)))
+        else:
+            raise Inconclusive('collect into ' + target)
+    return outs
 
 
 def m_join(ex, st, fr, callee, a, depth):
@@ -202,7 +378,8 @@ def m_join(ex, st, fr, callee, a, depth):
         for i, x in enumerate(xs):
             if i:
                 items += sep.items
-            items += as_str(s, x).items
+            x = deref(s, x)
+            items += x.items if isinstance(x, SymStr) else (x,)
         outs.append((s, SymStr(items)))
     return outs
 
@@ -221,23 +398,67 @@ def m_vec_join(ex, st, fr, callee, a, depth):
     return SymStr(items)
 
 
-def m_any(ex, st, fr, callee, a, depth):
+def m_vec_concat(ex, st, fr, callee, a, depth):
+    v = deref(st, a[0])
+    if not isinstance(v, ListV):
+        raise Inconclusive('concat on %r' % (v,))
+    items = []
+    for x in v.items:
+        items += as_str(st, x).items
+    return SymStr(items)
+
+
+def _quantified(kind):
+    def m(ex, st, fr, callee, a, depth):
+        outs = []
+        for s, xs in elems(ex, st, a[0], depth):
+            for s2, acc in call_seq(ex, s, a[1], xs, depth):
+                if not all(is_z3(v) for v in acc):
+                    raise Inconclusive('%s-closure returned a non-Boolean' % kind)
+                if kind == 'any':
+                    r = z3.Or(*acc) if acc else z3.BoolVal(False)
+                else:
+                    r = z3.And(*acc) if acc else z3.BoolVal(True)
+                if len(acc) > 8:
+                    r = ex.define(r, kind)
+                outs.append((s2, r))
+        return outs
+    m.__name__ = 'm_iter_' + kind
+    return m
+
+
+m_any = _quantified('any')
+m_all = _quantified('all')
+
+
+def m_find(ex, st, fr, callee, a, depth):
+    """Iterator::find / position: closures are evaluated in order until one holds"""
+    want_pos = '::position::<' in callee
     outs = []
     for s, xs in elems(ex, st, a[0], depth):
-        cur = [(s, [])]
-        for x in xs:
-            nxt = []
-            for s2, acc in cur:
-                for o in ex.call_merged(s2, a[1], [x], depth):
-                    if o.panic:
-                        raise Inconclusive('panic inside any-closure')
-                    nxt.append((o.st, acc + [o.val]))
-            cur = nxt
-        for s2, acc in cur:
-            r = z3.Or(*acc) if acc else z3.BoolVal(False)
-            if len(acc) > 8:
-                r = ex.define(r, 'any')
-            outs.append((s2, r))
+        work = [(s, 0)]
+        while work:
+            s1, i = work.pop()
+            if i == len(xs):
+                outs.append((s1, NONE))
+                continue
+            arg = xs[i] if want_pos else s1.ref(xs[i])
+            for o in ex.call_merged(s1, a[1], [arg], depth):
+                if o.panic:
+                    raise Inconclusive('panic inside find-closure')
+                for s2, t in truth_forks(ex, o.st, o.val):
+                    if t:
+                        outs.append((s2, some(BV(i, 64) if want_pos else xs[i])))
+                    else:
+                        work.append((s2, i + 1))
+    return outs
+
+
+def m_for_each(ex, st, fr, callee, a, depth):
+    outs = []
+    for s, xs in elems(ex, st, a[0], depth):
+        for s2, _acc in call_seq(ex, s, a[1], xs, depth, merged=False):
+            outs.append((s2, UNIT))
     return outs
 
 
@@ -245,14 +466,351 @@ def m_count(ex, st, fr, callee, a, depth):
     return [(s, BV(len(xs), 64)) for s, xs in elems(ex, st, a[0], depth)]
 
 
+def m_last(ex, st, fr, callee, a, depth):
+    return [(s, some(xs[-1]) if xs else NONE) for s, xs in elems(ex, st, a[0], depth)]
+
+
 def m_sum(ex, st, fr, callee, a, depth):
     outs = []
     for s, xs in elems(ex, st, a[0], depth):
         t = BV(0, 64)
         for x in xs:
+            x = deref(s, x)
             t = t + x
         outs.append((s, z3.simplify(t)))
     return outs
+
+
+# --------------------------------------------------------------------------- Option / Result
+def _opt(v, st):
+    v2 = v
+    while isinstance(v2, RefV):
+        v2 = st.load(v2)
+    if isinstance(v2, EnumV) and v2.enum in ('Option', 'Result'):
+        return v2
+    raise Inconclusive('expected Option/Result, got %r' % (v,))
+
+
+def m_opt_map(ex, st, fr, callee, a, depth):
+    o = _opt(a[0], st)
+    if o.variant in ('None', 'Err'):
+        return o
+    outs = []
+    for r in ex.call_value(st, a[1], [o.fields[0]], depth):
+        if r.panic:
+            outs.append(r)
+        else:
+            outs.append((r.st, EnumV(o.enum, o.variant, o.disc, (r.val,))))
+    return outs
+
+
+def m_opt_and_then(ex, st, fr, callee, a, depth):
+    o = _opt(a[0], st)
+    if o.variant in ('None', 'Err'):
+        return o
+    return ex.call_value(st, a[1], [o.fields[0]], depth)
+
+
+def m_opt_unwrap_or_else(ex, st, fr, callee, a, depth):
+    o = _opt(a[0], st)
+    if o.variant in ('Some', 'Ok'):
+        return o.fields[0]
+    args = [] if o.variant == 'None' else [o.fields[0]]
+    return ex.call_value(st, a[1], args, depth)
+
+
+def m_opt_unwrap_or(ex, st, fr, callee, a, depth):
+    o = _opt(a[0], st)
+    return o.fields[0] if o.variant in ('Some', 'Ok') else a[1]
+
+
+def m_opt_unwrap(ex, st, fr, callee, a, depth):
+    o = _opt(a[0], st)
+    if o.variant in ('Some', 'Ok'):
+        return o.fields[0]
+    return Outcome(st, None, panic='called unwrap/expect on %s' % o.variant)
+
+
+def m_opt_is(ex, st, fr, callee, a, depth):
+    o = _opt(a[0], st)
+    name = callee.rsplit('::', 1)[-1]
+    return z3.BoolVal({'is_some': o.variant == 'Some', 'is_none': o.variant == 'None', 'is_ok': o.variant == 'Ok',
+                       'is_err': o.variant == 'Err'}[name])
+
+
+def m_opt_cloned(ex, st, fr, callee, a, depth):
+    o = _opt(a[0], st)
+    if o.variant == 'None':
+        return o
+    x = o.fields[0]
+    return some(st.load(x) if isinstance(x, RefV) else x)
+
+
+def m_opt_as_ref(ex, st, fr, callee, a, depth):
+    o = _opt(a[0], st)
+    if o.variant == 'None':
+        return o
+    r = a[0]
+    while isinstance(st.load(r), RefV):
+        r = st.load(r)
+    return some(RefV(r.addr, r.path + (0,)))
+
+
+def m_opt_filter(ex, st, fr, callee, a, depth):
+    o = _opt(a[0], st)
+    if o.variant == 'None':
+        return o
+    outs = []
+    for r in ex.call_merged(st, a[1], [st.ref(o.fields[0])], depth):
+        for s2, t in truth_forks(ex, r.st, r.val):
+            outs.append((s2, o if t else NONE))
+    return outs
+
+
+def m_result_ok(ex, st, fr, callee, a, depth):
+    o = _opt(a[0], st)
+    return some(o.fields[0]) if o.variant == 'Ok' else NONE
+
+
+# --------------------------------------------------------------------------- slices
+def _list_ref(st, v):
+    r = v
+    while isinstance(r, RefV) and isinstance(st.load(r), RefV):
+        r = st.load(r)
+    if not isinstance(r, RefV) or not isinstance(st.load(r), ListV):
+        raise Inconclusive('expected a slice reference, got %r' % (v,))
+    return r
+
+
+def m_slice_first_last(ex, st, fr, callee, a, depth):
+    r = _list_ref(st, a[0])
+    n = len(st.load(r).items)
+    if n == 0:
+        return NONE
+    i = 0 if callee.rsplit('::', 1)[-1].startswith('first') else n - 1
+    return some(RefV(r.addr, r.path + (i,)))
+
+
+def m_slice_get(ex, st, fr, callee, a, depth):
+    r = _list_ref(st, a[0])
+    i = concrete(a[1])
+    if i is None:
+        raise Inconclusive('slice::get with a symbolic index')
+    return some(RefV(r.addr, r.path + (i,))) if i < len(st.load(r).items) else NONE
+
+
+def m_binary_search_by(ex, st, fr, callee, a, depth):
+    """slice::binary_search_by: the std algorithm (halving) with the comparator closure run from MIR"""
+    r = _list_ref(st, a[0])
+    n = len(st.load(r).items)
+    if n == 0:
+        return err(BV(0, 64))
+
+    def cmp_at(s, i):
+        res = []
+        for o in ex.call_value(s, a[1], [RefV(r.addr, r.path + (i,))], depth):
+            if o.panic or not (isinstance(o.val, EnumV) and o.val.enum == 'Ordering'):
+                raise Inconclusive('comparator of binary_search_by returned %r' % (o.val,))
+            res.append((o.st, o.val.variant))
+        return res
+    outs = []
+    work = [(st, 0, n)]
+    while work:
+        s, base, size = work.pop()
+        if size > 1:
+            half = size // 2
+            mid = base + half
+            for s2, c in cmp_at(s, mid):
+                work.append((s2, base if c == 'Greater' else mid, size - half))
+            continue
+        for s2, c in cmp_at(s, base):
+            if c == 'Equal':
+                outs.append((s2, ok(BV(base, 64))))
+            else:
+                outs.append((s2, err(BV(base + (1 if c == 'Less' else 0), 64))))
+    return outs
+
+
+def ordering(name):
+    return EnumV('Ordering', name, {'Less': -1, 'Equal': 0, 'Greater': 1}[name], ())
+
+
+def cmp_scalar_forks(ex, st, x, y, signed=False):
+    """three-way comparison of two bit-vectors -> [(state, 'Less'|'Equal'|'Greater')]"""
+    lt = (x < y) if signed else z3.ULT(x, y)
+    outs = []
+    for s1, t in ex.branch(st, lt):
+        if t:
+            outs.append((s1, 'Less'))
+        else:
+            for s2, e in ex.branch(s1, x == y):
+                outs.append((s2, 'Equal' if e else 'Greater'))
+    return outs
+
+
+def cmp_str_forks(ex, st, xs, ys):
+    """lexicographic comparison of two code-point sequences (= byte order of their UTF-8 encodings)"""
+    outs = []
+    work = [(st, 0)]
+    while work:
+        s, i = work.pop()
+        if i == len(xs) or i == len(ys):
+            outs.append((s, 'Equal' if len(xs) == len(ys) else ('Less' if len(xs) < len(ys) else 'Greater')))
+            continue
+        for s2, c in cmp_scalar_forks(ex, s, xs[i], ys[i]):
+            if c == 'Equal':
+                work.append((s2, i + 1))
+            else:
+                outs.append((s2, c))
+    return outs
+
+
+def m_ord_cmp(ex, st, fr, callee, a, depth):
+    """<T as Ord>::cmp for integers, char, str/String (lexicographic by code point)"""
+    x, y = deref(st, a[0]), deref(st, a[1])
+    if isinstance(x, SymStr) and isinstance(y, SymStr):
+        return [(s, ordering(c)) for s, c in cmp_str_forks(ex, st, list(x.items), list(y.items))]
+    if is_z3(x) and is_z3(y) and not z3.is_bool(x):
+        m = re.match(r'^<(\w+) as (?:Partial)?Ord>', callee)
+        signed = bool(m) and m.group(1).startswith('i')
+        return [(s, ordering(c)) for s, c in cmp_scalar_forks(ex, st, x, y, signed)]
+    raise Inconclusive('Ord::cmp on %r, %r' % (x, y))
+
+
+def _stable_sort(ex, st, items, cmp):
+    """insertion sort (stable); cmp(state, a, b) -> [(state, ordering name)]; -> [(state, sorted items)]"""
+    cur = [(st, [])]
+    for x in items:
+        nxt = []
+        for s, acc in cur:
+            # find the insertion point from the right: skip elements that are Greater than x
+            work = [(s, len(acc))]
+            while work:
+                s1, j = work.pop()
+                if j == 0:
+                    nxt.append((s1, [x] + acc))
+                    continue
+                for s2, c in cmp(s1, acc[j - 1], x):
+                    if c == 'Greater':
+                        work.append((s2, j - 1))
+                    else:
+                        nxt.append((s2, acc[:j] + [x] + acc[j:]))
+        cur = nxt
+    return cur
+
+
+def m_slice_sort(ex, st, fr, callee, a, depth):
+    """<[T]>::sort: the stable sorted permutation under Ord (strings: lexicographic by code point)"""
+    r = _list_ref(st, a[0])
+    items = list(st.load(r).items)
+
+    def cmp(s, x, y):
+        x, y = deref(s, x), deref(s, y)
+        if isinstance(x, SymStr):
+            return cmp_str_forks(ex, s, list(x.items), list(y.items))
+        if is_z3(x):
+            return cmp_scalar_forks(ex, s, x, y)
+        raise Inconclusive('sort of %r' % (x,))
+    outs = []
+    for s, xs in _stable_sort(ex, st, items, cmp):
+        s.store(r, ListV(xs))
+        outs.append((s, UNIT))
+    return outs
+
+
+def m_slice_sort_by(ex, st, fr, callee, a, depth):
+    """<[T]>::sort_by: the stable sorted permutation under the comparator closure (run from its MIR)"""
+    r = _list_ref(st, a[0])
+    items = list(st.load(r).items)
+
+    def cmp(s, x, y):
+        res = []
+        for o in ex.call_value(s, a[1], [s.ref(x), s.ref(y)], depth):
+            if o.panic or not (isinstance(o.val, EnumV) and o.val.enum == 'Ordering'):
+                raise Inconclusive('sort_by comparator returned %r' % (o.val,))
+            res.append((o.st, o.val.variant))
+        return res
+    outs = []
+    for s, xs in _stable_sort(ex, st, items, cmp):
+        s.store(r, ListV(xs))
+        outs.append((s, UNIT))
+    return outs
+
+
+def m_vec_dedup(ex, st, fr, callee, a, depth):
+    """Vec::dedup: consecutive equal elements are removed (first one kept)"""
+    r = _list_ref(st, a[0])
+    items = list(st.load(r).items)
+    cur = [(st, [])]
+    for x in items:
+        nxt = []
+        for s, acc in cur:
+            if not acc:
+                nxt.append((s, [x]))
+                continue
+            p, q = deref(s, acc[-1]), deref(s, x)
+            if isinstance(p, SymStr):
+                eq = z3.BoolVal(False) if len(p.items) != len(q.items) else (
+                    z3.And(*[u == v for u, v in zip(p.items, q.items)]) if p.items else z3.BoolVal(True))
+            elif is_z3(p):
+                eq = p == q
+            else:
+                raise Inconclusive('dedup of %r' % (p,))
+            for s2, t in ex.branch(s, eq):
+                nxt.append((s2, acc if t else acc + [x]))
+        cur = nxt
+    outs = []
+    for s, xs in cur:
+        s.store(r, ListV(xs))
+        outs.append((s, UNIT))
+    return outs
+
+
+def m_str_repeat(ex, st, fr, callee, a, depth):
+    s = as_str(st, a[0])
+    n = concrete(a[1])
+    if n is None:
+        raise Inconclusive('str::repeat with a symbolic count')
+    if n > 10000:
+        return Outcome(st, None, panic='capacity overflow')
+    return SymStr(list(s.items) * n)
+
+
+def m_str_lines(ex, st, fr, callee, a, depth):
+    """str::lines: split at \\n (a preceding \\r is dropped); a trailing empty piece is not yielded"""
+    s = list(as_str(st, a[0]).items)
+    outs = []
+    work = [(st, 0, [], [])]     # state, position, finished lines, current line
+    while work:
+        s1, i, lines, cur = work.pop()
+        if i == len(s):
+            if cur:
+                lines = lines + [cur]
+            outs.append((s1, IterV('list', items=tuple(s1.ref(SymStr(l)) for l in lines))))
+            continue
+        for s2, nl in ex.branch(s1, s[i] == BV(10, 32)):
+            if not nl:
+                work.append((s2, i + 1, lines, cur + [s[i]]))
+                continue
+            if cur:
+                for s3, cr in ex.branch(s2, cur[-1] == BV(13, 32)):
+                    work.append((s3, i + 1, lines + [cur[:-1] if cr else cur], []))
+            else:
+                work.append((s2, i + 1, lines + [cur], []))
+    return outs
+
+
+def m_vec_push(ex, st, fr, callee, a, depth):
+    r = _list_ref(st, a[0])
+    st.store(r, ListV(st.load(r).items + (a[1],)))
+    return UNIT
+
+
+def m_vec_from_list(ex, st, fr, callee, a, depth):
+    v = deref(st, a[0])
+    if isinstance(v, ListV):
+        return v
+    raise Inconclusive('Vec from %r' % (v,))
 
 
 # --------------------------------------------------------------------------- char / str / String
@@ -308,12 +866,16 @@ def m_str_len_chars_count(ex, st, fr, callee, a, depth):
 
 
 def m_str_contains_char(ex, st, fr, callee, a, depth):
+    if isinstance(a[1], (ClosV, FnItem)):
+        return _closure_pattern(ex, st, a, depth, 'any')
     s = as_str(st, a[0])
     p = deref(st, a[1])
     if isinstance(p, SymStr):
-        if len(p.items) != 1:
-            raise Inconclusive('str::contains with a multi-char pattern')
-        p = p.items[0]
+        k = len(p.items)
+        if k == 0:
+            return z3.BoolVal(True)
+        n = len(s.items)
+        return z3.Or(*[z3.And(*[s.items[i + j] == p.items[j] for j in range(k)]) for i in range(n - k + 1)]) if n >= k else z3.BoolVal(False)
     return z3.Or(*[x == p for x in s.items]) if s.items else z3.BoolVal(False)
 
 
@@ -364,6 +926,107 @@ def m_str_replace(ex, st, fr, callee, a, depth):
                 nxt.append((s2, acc + (list(to.items) if truth else [x])))
         cur = nxt
     return [(s1, SymStr(acc)) for s1, acc in cur]
+
+
+def utf8_len(c):
+    return z3.If(z3.ULT(c, BV(0x80, 32)), BV(1, 64), z3.If(z3.ULT(c, BV(0x800, 32)), BV(2, 64),
+                 z3.If(z3.ULT(c, BV(0x10000, 32)), BV(3, 64), BV(4, 64))))
+
+
+def m_str_len(ex, st, fr, callee, a, depth):
+    """str::len / String::len: UTF-8 byte length = sum over code points of 1/2/3/4"""
+    s = as_str(st, a[0])
+    t = BV(0, 64)
+    for c in s.items:
+        t = t + utf8_len(c)
+    return z3.simplify(t)
+
+
+def m_char_len_utf8(ex, st, fr, callee, a, depth):
+    return utf8_len(deref(st, a[0]))
+
+
+def m_char_len_utf16(ex, st, fr, callee, a, depth):
+    return z3.If(z3.ULT(deref(st, a[0]), BV(0x10000, 32)), BV(1, 64), BV(2, 64))
+
+
+def _pattern_items(st, p):
+    p = deref(st, p)
+    if isinstance(p, SymStr):
+        return list(p.items)
+    if is_z3(p):
+        return [p]
+    raise Inconclusive('string pattern %r' % (p,))
+
+
+def _closure_pattern(ex, st, a, depth, which):
+    """starts_with / ends_with / contains with a `|c: char| -> bool` pattern"""
+    s = as_str(st, a[0]).items
+    if not s:
+        return z3.BoolVal(False)
+    idx = {'first': [0], 'last': [len(s) - 1], 'any': list(range(len(s)))}[which]
+    outs = []
+    for s1, vals in call_seq(ex, st, a[1], [s[i] for i in idx], depth):
+        outs.append((s1, z3.Or(*vals) if len(vals) > 1 else vals[0]))
+    return outs
+
+
+def m_str_starts_with(ex, st, fr, callee, a, depth):
+    if isinstance(a[1], (ClosV, FnItem)):
+        return _closure_pattern(ex, st, a, depth, 'first')
+    s = as_str(st, a[0]).items
+    p = _pattern_items(st, a[1])
+    if len(p) > len(s):
+        return z3.BoolVal(False)
+    return z3.And(*[x == y for x, y in zip(s, p)]) if p else z3.BoolVal(True)
+
+
+def m_str_ends_with(ex, st, fr, callee, a, depth):
+    if isinstance(a[1], (ClosV, FnItem)):
+        return _closure_pattern(ex, st, a, depth, 'last')
+    s = as_str(st, a[0]).items
+    p = _pattern_items(st, a[1])
+    if len(p) > len(s):
+        return z3.BoolVal(False)
+    return z3.And(*[x == y for x, y in zip(s[len(s) - len(p):], p)]) if p else z3.BoolVal(True)
+
+
+def m_str_trim_end_matches(ex, st, fr, callee, a, depth):
+    s = list(as_str(st, a[0]).items)
+    p = _pattern_items(st, a[1])
+    if len(p) != 1:
+        raise Inconclusive('trim_end_matches with a multi-char pattern')
+    outs = []
+    work = [(st, len(s))]
+    while work:
+        s1, n = work.pop()
+        if n == 0:
+            outs.append((s1, s1.ref(SymStr(()))))
+            continue
+        for s2, t in ex.branch(s1, s[n - 1] == p[0]):
+            if t:
+                work.append((s2, n - 1))
+            else:
+                outs.append((s2, s2.ref(SymStr(s[:n]))))
+    return outs
+
+
+def m_string_push(ex, st, fr, callee, a, depth):
+    r = a[0]
+    while isinstance(st.load(r), RefV):
+        r = st.load(r)
+    st.store(r, SymStr(st.load(r).items + (deref(st, a[1]),)))
+    return UNIT
+
+
+def m_char_is_ascii_class(ex, st, fr, callee, a, depth):
+    c = deref(st, a[0])
+    name = callee.rsplit('::', 1)[-1]
+    def rng(lo, hi):
+        return z3.And(z3.UGE(c, BV(ord(lo), 32)), z3.ULE(c, BV(ord(hi), 32)))
+    return {'is_ascii_digit': rng('0', '9'), 'is_ascii_lowercase': rng('a', 'z'), 'is_ascii_uppercase': rng('A', 'Z'),
+            'is_ascii_alphabetic': z3.Or(rng('a', 'z'), rng('A', 'Z')),
+            'is_ascii_alphanumeric': z3.Or(rng('a', 'z'), rng('A', 'Z'), rng('0', '9'))}[name]
 
 
 def m_string_new(ex, st, fr, callee, a, depth):
@@ -687,7 +1350,7 @@ BASE_MODELS = [
     (P(r'RangeInclusive::<char>::new$'), m_range_inclusive_new),
     (P(r'RangeInclusive::<char>::contains::<char>$'), m_range_inclusive_contains),
     (P(r'^<char as ToString>::to_string$'), m_char_to_string),
-    (P(r'^<(str|String) as ToString>::to_string$'), m_str_to_string),
+    (P(r'^<&*(str|String) as ToString>::to_string$'), m_str_to_string),
     (P(r'^<(String|Vec<.*>) as Deref>::deref$'), m_string_deref),
     (P(r'^<(String|Vec<.*>) as DerefMut>::deref_mut$'), m_string_deref),
     (P(r'^String::as_str$'), m_string_deref),
@@ -695,7 +1358,7 @@ BASE_MODELS = [
     (P(r'^<String as Clone>::clone$'), m_str_to_string),
     (P(r'^<&str as Into<String>>::into$|^<str as ToOwned>::to_owned$|^<String as From<&str>>::from$'), m_str_to_string),
     (P(r'^core::str::<impl str>::chars$'), m_str_chars),
-    (P(r'^core::str::<impl str>::contains::<char>$'), m_str_contains_char),
+    (P(r'^core::str::<impl str>::contains::<'), m_str_contains_char),
     (P(r'^str::<impl str>::replace::<'), m_str_replace),
     (P(r'^core::str::<impl str>::matches::<char>$'), m_str_matches),
     (P(r'^<String as PartialEq<&str>>::eq$|^<String as PartialEq<str>>::eq$|^<String as PartialEq>::eq$|^<str as PartialEq>::eq$|^<&str as PartialEq<String>>::eq$|^<&str as PartialEq>::eq$'), m_str_eq),
@@ -713,14 +1376,63 @@ BASE_MODELS = [
     (P(r'^<Vec<.*> as Index<usize>>::index$|^<Vec<.*> as std::ops::Index<usize>>::index$|^<Vec<.*> as IndexMut<usize>>::index_mut$'), m_index),
     (P(r'^(std::)?slice::<impl \[String\]>::join::<&str>$'), m_vec_join),
     (P(r' as IntoIterator>::into_iter$'), m_into_iter),
-    (P(r'^<(std::ops::Range<usize>|std::slice::Iter<.*>|Chars<.*>) as Iterator>::next$'), m_iter_next),
-    (P(r' as Iterator>::map::<'), m_map),
+    (P(r'^core::slice::<impl \[.*\]>::iter_mut$'), m_slice_iter),
+    (P(r' as Iterator>::next$'), m_iter_next),
+    (P(r' as Iterator>::map::<'), adaptor('map')),
+    (P(r' as Iterator>::filter::<'), adaptor('filter')),
+    (P(r' as Iterator>::filter_map::<'), adaptor('filter_map')),
+    (P(r' as Iterator>::flat_map::<'), adaptor('flat_map')),
+    (P(r' as Iterator>::enumerate$'), adaptor('enumerate', with_clos=False)),
+    (P(r' as Iterator>::rev$'), adaptor('rev', with_clos=False)),
+    (P(r' as Iterator>::cloned::<|as Iterator>::cloned$'), adaptor('cloned', with_clos=False)),
+    (P(r' as Iterator>::copied::<|as Iterator>::copied$'), adaptor('copied', with_clos=False)),
+    (P(r' as Iterator>::zip::<'), adaptor('zip')),
+    (P(r' as Iterator>::chain::<'), adaptor('chain')),
+    (P(r' as Iterator>::take$'), adaptor('take', by_count=True)),
+    (P(r' as Iterator>::skip$'), adaptor('skip', by_count=True)),
     (P(r' as Itertools>::collect_vec$'), m_collect_vec),
+    (P(r' as Itertools>::unique_by::<| as Itertools>::unique$'), m_unique_by),
+    (P(r'^std::mem::take::<|^core::mem::take::<'), m_mem_take),
+    (P(r' as Iterator>::collect::<'), m_collect),
     (P(r' as Itertools>::join$'), m_join),
     (P(r' as Iterator>::any::<'), m_any),
+    (P(r' as Iterator>::all::<'), m_all),
+    (P(r' as Iterator>::find::<| as Iterator>::position::<'), m_find),
+    (P(r' as Iterator>::for_each::<'), m_for_each),
     (P(r"^<std::str::Matches<'_, char> as Iterator>::count$"), m_matches_count),
     (P(r' as Iterator>::count$'), m_count),
+    (P(r' as Iterator>::last$'), m_last),
     (P(r' as Iterator>::sum::<usize>$'), m_sum),
+    (P(r'^Option::<.*>::map::<|^Result::<.*>::map::<'), m_opt_map),
+    (P(r'^Option::<.*>::and_then::<'), m_opt_and_then),
+    (P(r'^Option::<.*>::unwrap_or_else::<|^Option::<.*>::map_or_else::<|^Result::<.*>::unwrap_or_else::<'), m_opt_unwrap_or_else),
+    (P(r'^Option::<.*>::unwrap_or$|^Result::<.*>::unwrap_or$'), m_opt_unwrap_or),
+    (P(r'^Option::<.*>::(unwrap|expect)$|^Result::<.*>::(unwrap|expect)$'), m_opt_unwrap),
+    (P(r'^Option::<.*>::(is_some|is_none)$|^Result::<.*>::(is_ok|is_err)$'), m_opt_is),
+    (P(r'^Option::<&.*>::(cloned|copied)$'), m_opt_cloned),
+    (P(r'^Option::<.*>::as_ref$'), m_opt_as_ref),
+    (P(r'^Option::<.*>::filter::<'), m_opt_filter),
+    (P(r'^Result::<.*>::ok$'), m_result_ok),
+    (P(r'^core::slice::<impl \[.*\]>::(first|last|first_mut|last_mut)$'), m_slice_first_last),
+    (P(r'^core::slice::<impl \[.*\]>::get::<usize>$'), m_slice_get),
+    (P(r'^core::slice::<impl \[.*\]>::binary_search_by::<'), m_binary_search_by),
+    (P(r'^Vec::<.*>::push$'), m_vec_push),
+    (P(r'^<(usize|u8|u16|u32|u64|i32|i64|isize|char|String|str|&str) as (Partial)?Ord>::cmp$'), m_ord_cmp),
+    (P(r'^(std::)?slice::<impl \[.*\]>::sort$|^core::slice::<impl \[.*\]>::sort_unstable$'), m_slice_sort),
+    (P(r'^(std::)?slice::<impl \[.*\]>::sort_by::<|^core::slice::<impl \[.*\]>::sort_unstable_by::<'), m_slice_sort_by),
+    (P(r'^Vec::<.*>::dedup$'), m_vec_dedup),
+    (P(r'^(std::)?str::<impl str>::repeat$'), m_str_repeat),
+    (P(r'^core::str::<impl str>::lines$'), m_str_lines),
+    (P(r'^(std::)?slice::<impl \[.*\]>::to_vec$|^<\[.*\] as ToOwned>::to_owned$|^<Vec<.*> as From<.*>>::from$'), m_vec_from_list),
+    (P(r'^(std::)?slice::<impl \[String\]>::concat::<'), m_vec_concat),
+    (P(r'^core::str::<impl str>::len$|^String::len$'), m_str_len),
+    (P(r'impl char>::len_utf8$'), m_char_len_utf8),
+    (P(r'impl char>::len_utf16$'), m_char_len_utf16),
+    (P(r'^core::str::<impl str>::starts_with::<'), m_str_starts_with),
+    (P(r'^core::str::<impl str>::ends_with::<'), m_str_ends_with),
+    (P(r'^core::str::<impl str>::trim_end_matches::<'), m_str_trim_end_matches),
+    (P(r'^String::push$'), m_string_push),
+    (P(r'impl char>::is_ascii_(digit|lowercase|uppercase|alphabetic|alphanumeric)$'), m_char_is_ascii_class),
     (P(r'^CharRange::closed$'), m_cr_closed),
     (P(r'^CharRange::contains$'), m_cr_contains),
     (P(r'^lazy_static::lazy::Lazy::<.*>::get::<'), m_lazy_get),
